@@ -401,7 +401,9 @@ class ResponseHandler(BaseProtocol, DataQueue[tuple[RawResponseMessage, StreamRe
             # EMPTY_PAYLOAD
             if payload is not EMPTY_PAYLOAD:
                 payload.on_eof(self._drop_timeout)
-            else:
+            elif not (100 <= message.code < 200 and message.code != 101):
+                # An interim 1xx response is not the end of the exchange:
+                # the final response is still awaited, under the same timer.
                 self._drop_timeout()
 
         if upgraded and tail:
